@@ -322,6 +322,12 @@ class ParseStaticRoute(Section):
         4. Create NLRI in post() when all values are collected
         """
         ipmask = prefix(self.parser.tokeniser)
+        # only the prefix can be given before the {, what followed was silently ignored
+        unexpected = self.parser.tokeniser.remaining_string()
+        if unexpected:
+            return self.error.set(
+                f"unexpected '{unexpected}' before '{{'\n  Format: route <ip>/<netmask> {{ <attribute>; ... }}"
+            )
         settings = INETSettings()
         settings.cidr = CIDR.create_cidr(ipmask.pack_ip(), ipmask.mask)
         settings.afi = IP.toafi(ipmask.top())
